@@ -75,7 +75,7 @@ func PageIndividual(document *gedcom.Document, individual *gedcom.IndividualNode
 		}
 	}
 
-	individuals := GetIndividuals(document, placesMap)
+	individuals := getIndividuals(document, placesMap, visibility)
 
 	for key, value := range individuals {
 		if value.Is(individual) {
